@@ -160,6 +160,31 @@ def run_verus(gen_path, gen_text, linemap, unit_name, fn_ranges, rlimit=None, th
         sec = [s for s in d.get("spans", []) if not s.get("is_primary")]
         base = os.path.basename(gen_path)
         span = prim[0] if prim else None
+        macro_name = None
+        if kind == "post":
+            # locate the failure at the exit point of the function that broke the clause (matters for trait impls)
+            for s_ in sec:
+                lab = s_.get("label") or ""
+                if ("end of the function body" in lab or "at this exit" in lab) and os.path.basename(s_["file_name"]) == base:
+                    for s2 in d.get("spans", []):
+                        if "failed this postcondition" in (s2.get("label") or "") or s2.get("is_primary"):
+                            if s2.get("text"):
+                                dg.post_clause = s2["text"][0]["text"]
+                    span = s_
+                    break
+        if not (span and os.path.basename(span["file_name"]) == base):
+            # primary span outside the generated file: use a secondary span inside it, or walk the macro expansion chain
+            alt = [s_ for s_ in sec if os.path.basename(s_["file_name"]) == base]
+            if alt:
+                span = alt[0]
+            elif span is not None:
+                e = span.get("expansion")
+                while e:
+                    sp = e["span"]
+                    macro_name = e.get("macro_decl_name") or macro_name
+                    if os.path.basename(sp["file_name"]) == base:
+                        span = sp
+                    e = sp.get("expansion")
         # for post failures the primary span may sit on the function end; fine
         if span and os.path.basename(span["file_name"]) == base:
             dg.gen_line = span["line_start"]
@@ -173,6 +198,11 @@ def run_verus(gen_path, gen_text, linemap, unit_name, fn_ranges, rlimit=None, th
                 k -= 1
                 o = linemap[k]
             dg.repo = o
+            if o is not None:
+                for qual, rel, a_, b_ in fn_ranges:
+                    if rel == o[0] and a_ <= o[1] <= b_:
+                        dg.func = qual
+                        break
         for s in d.get("spans", []):
             lab = s.get("label") or ""
             if "failed precondition" in lab:
@@ -184,6 +214,8 @@ def run_verus(gen_path, gen_text, linemap, unit_name, fn_ranges, rlimit=None, th
             if "failed this postcondition" in lab or "postcondition" in lab:
                 dg.post_clause = s["text"][0]["text"] if s.get("text") else ""
         # refine kinds
+        if dg.kind == "callee-pre" and macro_name and re.search(r"unreachable|panic|assert|unimplemented|todo", macro_name):
+            dg.kind, dg.callee = "panic", None
         if dg.kind == "callee-pre":
             cal = dg.callee or ""
             if cal.startswith("vstd:"):
